@@ -36,7 +36,7 @@ m("c05_renewal_not_rearmed_on_even", "C05", DL,
 m("c05_unlock_does_not_cancel_timer", "C05", DL,
   "\tfuture := l.future.Load().(timeout.Future)\n\tfuture.Cancel()\n\terr := l.dlp.Storage.Delete",
   "\terr := l.dlp.Storage.Delete",
-  "Unlock leaves the renewal timer armed (harmless alone: the CAS then fails with ErrNotExist) - control mutant, may legitimately survive")
+  "EQUIVALENT (control): Unlock leaves the renewal timer armed; the one armed attempt then fails with ErrNotExist and arms nothing, which C05 allows - expected to survive")
 m("c05_renewal_uses_put", "C05", DL,
   "\tr, err := l.dlp.Storage.CasByVersion(context.Background(), kvs.Record{",
   "\tr, err := l.dlp.Storage.Put(context.Background(), kvs.Record{",
@@ -63,12 +63,12 @@ m("c06_inmem_listkeys_ignores_expiry", "C06", IM,
   "\t\tif g.Match(k) && !expired(r) {", "\t\t_ = r\n\t\tif g.Match(k) {",
   "ListKeys lists expired records again")
 m("c06_inmem_delete_expired_is_nil", "C06", IM,
-  "\tif expired(r) {\n\t\treturn errors.ErrNotExist\n\t}\n\treturn nil\n}", "\treturn nil\n}",
+  "\tif expired(r) {\n\t\treturn errors.ErrNotExist\n\t}\n\treturn nil\n}", "\t_ = r\n\treturn nil\n}",
   "Delete of an expired record reports nil")
 m("c07_cancel_closes_shared_channel", "C07", IM,
   "\t\t\tws.waiters--\n\t\t\tif ws.waiters == 0 {\n\t\t\t\tclose(ws.done)\n\t\t\t\tdelete(s.verChange, key)\n\t\t\t}\n\t\t\treturn ctx.Err()",
   "\t\t\tws.waiters--\n\t\t\tclose(ws.done)\n\t\t\tdelete(s.verChange, key)\n\t\t\treturn ctx.Err()",
-  "a cancelled waiter tears the shared waiter record down although others still wait (they re-register; visible as a spurious table change or a double close)")
+  "EQUIVALENT (control): a cancelled waiter tears the shared waiter record down although others still wait; they wake spuriously, re-check and re-register - no observable difference, expected to survive")
 m("c07_notify_forgets_delete", "C07", IM,
   "\tclose(ws.done)\n\tdelete(s.verChange, key)\n}", "\tclose(ws.done)\n}",
   "notifyWaiters leaves the closed waiter record in the table: the next mutation closes it again (panic) / waiters spin")
@@ -113,7 +113,7 @@ m("c13_exit_forgets_counter", "C13", TM,
   "an idle worker leaves without decrementing the worker count: the pool never restarts")
 RB = "container/ringbuffer.go"
 m("c14_readn_wrap_end", "C14", RB, "\t\tendIdx := len(r.buf)\n\t\tif r.r < r.w {\n\t\t\tendIdx = r.w\n\t\t}\n\t\tcnt := copy(dst",
-  "\t\tendIdx := len(r.buf)\n\t\tif r.r <= r.w {\n\t\t\tendIdx = r.w\n\t\t}\n\t\tcnt := copy(dst", "ReadN end index wrong when r == w (full wrap)")
+  "\t\tendIdx := len(r.buf)\n\t\tif r.r <= r.w {\n\t\t\tendIdx = r.w\n\t\t}\n\t\tcnt := copy(dst", "EQUIVALENT (control): differs only when r == w, i.e. Len()==0, where the loop is never entered - expected to survive")
 m("c14_skip_leaves_last_slot", "C14", RB, "\t\tSliceFill(r.buf[r.r:endIdx], nilVal)\n\t\tres += cnt",
   "\t\tSliceFill(r.buf[r.r:endIdx-1], nilVal)\n\t\tres += cnt", "Skip does not clear the last slot of each segment")
 XB = "xbinary/xbinary.go"
